@@ -73,12 +73,14 @@ Definition simple_decimal (s : bytes) : option N :=
   end.
 
 Inductive qres := QThousandths (n : N) | QUnspec.
-(* q.trim_start_matches("q=").parse::<f32>().ok() ... unwrap_or(1.0) *)
+(* q.trim().trim_start_matches("q=").parse::<f32>().ok() ... unwrap_or(1.0)
+   (trim: Unicode White_Space at both ends of the whole parameter; then the literal prefix "q=",
+   repeatedly; so " q=0.5 " is 0.5 while "Q=0.5" and "q = 0.5" do not parse and give 1.0) *)
 Definition parse_quality (piece : option bytes) : qres :=
   match piece with
   | None => QThousandths 1000
   | Some q =>
-      let t := trim_start_matches (bs "q=") q in
+      let t := trim_start_matches (bs "q=") (trim q) in
       if f32_grammar t then
         match simple_decimal t with Some n => QThousandths n | None => QUnspec end
       else QThousandths 1000
@@ -90,7 +92,8 @@ Definition lang_entry (part : bytes) : option (qres * bytes) :=
   let pieces := split_byte ";"%byte part in
   let full_language := trim (hd [] pieces) in
   if bytes_eqb full_language [] then None else
-  let language := hd [] (split_byte "-"%byte full_language) in
+  (* full_language.split('-').next().unwrap_or("").to_ascii_lowercase() *)
+  let language := lower_ascii (hd [] (split_byte "-"%byte full_language)) in
   let quality := parse_quality (nth_error pieces 1) in
   match lang_lookup language with
   | Some name => Some (quality, name)
